@@ -204,9 +204,10 @@ class C05(ApiScenario):
 class C06(ApiScenario):
     prop = "C06"
     design_ref = "DESIGN.md 3.2, 4/C06"
-    rule = (C04.rule + "; every program ends with stop() (+ join() when the observer was started); every fourth run index uses the REAL inotify emitter (real kernel behind the shim) or the real "
+    rule = (C04.rule + "; half of the programs end with an extra stop() of the harness, the others with their own last stop() (+ join() when the observer was started); 12% call start() a second time; every fourth run index uses the REAL inotify emitter (real kernel behind the shim) or the real "
             "polling emitter on a real scratch tree: 1-3 application threads issue schedule/unschedule/unschedule_all/start/stop and file-system operations concurrently, a handler may call "
-            "stop()/unschedule_all()/schedule() from its first callback, the root may be removed before stop()")
+            "stop()/unschedule_all()/schedule() from its first callback, the root may be removed before stop(), the observer timeout is drawn from {1, 0.25, 0.05} s and entries are moved out of the tree "
+            "(an emitter inside the pairing delay when stop() arrives)")
     level_text = ("Seeded search over API call orders x interleavings with scripted emitters and with the real inotify and polling emitters; "
                   "verdicts from the scheduler itself: deadlock = no runnable task and no pending timer while a call has not returned; hang = step cap / virtual-time horizon; "
                   "after stop()+join() returned every task started through BaseThread.start is finished.")
